@@ -303,7 +303,11 @@ func hostileBytes(seed uint64, side string, items []HRec, b *built, p *ScriptPla
 				continue
 			}
 			hc := &histClient{p: p, b: b, seed: seed, n: i, sendSeq: 1}
-			rec, _, _, _, err := hc.hello2("hello2-ok", 0, it.A%2 == 0)
+			kind := "hello2-ok"
+			if it.Kind == "hello2" && it.A%3 == 2 {
+				kind = "hello2-nover"
+			}
+			rec, _, _, _, err := hc.hello2(kind, 0, it.A%2 == 0)
 			if err != nil {
 				continue
 			}
@@ -496,6 +500,21 @@ func genC08(seed uint64, idx int) *Plan {
 		b.Grease, b.Expect = true, "passthrough"
 	}
 	h := &HostilePlan{Base: *b, BackFirst: r.IntN(2) == 0, NoKeys: r.IntN(5) == 0, Chunks: genChunks(r)}
+	if idx%25 == 7 && !b.NoECH && !b.Grease {
+		// decompression bomb: an authentic hello naming one big outer extension 127 times
+		h.Base.Compress, h.Base.ExtraIn = true, max(h.Base.ExtraIn, 4)
+		h.Base.Mutations = []Mutation{{Kind: "oe-bomb", A: r.IntN(1 << 16)}}
+		h.Base.Expect = "abort"
+		h.NoKeys = false
+		return &Plan{Kind: "hostile", Seed: seed, Hostile: h}
+	}
+	if idx%25 == 13 && !b.NoECH && !b.Grease {
+		// accepted hello, HelloRetryRequest, then a retried hello that dropped supported_versions
+		h.NoKeys, h.BackFirst = false, true
+		h.Back = []HRec{{Kind: "hrr"}}
+		h.Tail = []HRec{{Kind: "hello2", A: 2 + 3*r.IntN(100)}}
+		return &Plan{Kind: "hostile", Seed: seed, Hostile: h}
+	}
 	nm := r.IntN(4)
 	if r.IntN(4) == 0 {
 		nm = 0 // intact first record: the hostile part comes later
